@@ -259,6 +259,81 @@ func buildModel(l *Loaded) (*Model, error) {
 			}
 		}
 	}
+	// fallback when the pool table is not in the sync.Pool{New: …} form: take the kind → layout
+	// mapping from the casts under `case <kind>:` in the dispatching switches, and the pool table
+	// from the package-level variable indexed by a kind constant in X[K].Get()/Put()
+	if len(poolTypes) < 2 {
+		votes := map[int64]map[*types.Named]int{}
+		for _, u := range m.Units {
+			ast.Inspect(u.Body, func(n ast.Node) bool {
+				cc, ok := n.(*ast.CaseClause)
+				if !ok || len(cc.List) != 1 {
+					return true
+				}
+				tv, ok := m.Info.Types[cc.List[0]]
+				if !ok || tv.Value == nil || !types.Identical(tv.Type, m.KindType) {
+					return true
+				}
+				kv, _ := constant.Int64Val(tv.Value)
+				for _, st := range cc.Body {
+					ast.Inspect(st, func(z ast.Node) bool {
+						if call, ok := z.(*ast.CallExpr); ok && isConversion(m.Info, call) && len(call.Args) == 1 {
+							if p, ok := m.Info.TypeOf(call).Underlying().(*types.Pointer); ok {
+								if nt := namedOf(p.Elem()); nt != nil {
+									if _, isStruct := nt.Underlying().(*types.Struct); isStruct {
+										if votes[kv] == nil {
+											votes[kv] = map[*types.Named]int{}
+										}
+										votes[kv][nt]++
+									}
+								}
+							}
+						}
+						return true
+					})
+				}
+				return true
+			})
+		}
+		for kv, vs := range votes {
+			var best *types.Named
+			for nt, c := range vs {
+				if best == nil || c > vs[best] {
+					best = nt
+				}
+			}
+			if best != nil && vs[best] >= 3 {
+				poolTypes[kv] = best
+			}
+		}
+	}
+	if m.PoolVar == nil {
+		for _, u := range m.Units {
+			ast.Inspect(u.Body, func(n ast.Node) bool {
+				call, ok := n.(*ast.CallExpr)
+				if !ok {
+					return true
+				}
+				sel, ok := ast.Unparen(call.Fun).(*ast.SelectorExpr)
+				if !ok || (sel.Sel.Name != "Get" && sel.Sel.Name != "Put") {
+					return true
+				}
+				ix, ok := ast.Unparen(sel.X).(*ast.IndexExpr)
+				if !ok {
+					return true
+				}
+				if tv, ok := m.Info.Types[ix.Index]; !ok || tv.Value == nil || !types.Identical(tv.Type, m.KindType) {
+					return true
+				}
+				if id, ok := ast.Unparen(ix.X).(*ast.Ident); ok {
+					if v, _ := m.Info.ObjectOf(id).(*types.Var); v != nil && v.Parent() == scope {
+						m.PoolVar = v
+					}
+				}
+				return true
+			})
+		}
+	}
 	for _, k := range kcs {
 		m.KindName[k.val] = k.name
 		if t := poolTypes[k.val]; t != nil {
